@@ -1,6 +1,7 @@
 import Ledger.Proofs.ChartRoundtrip
 import Ledger.Proofs.ChartValid
 import Ledger.Proofs.ChartSchemaJson
+import Ledger.Proofs.ChartEnforce
 
 /-!
 C30 — Schemas round-trip without changing meaning.
@@ -66,13 +67,6 @@ theorem queries_roundtrip (qs : List (Key × QueryTemplate)) (h : ∀ kq ∈ qs,
 /-! ### non-vacuity: a chart with fixed and variable segments, a pattern, `.self`
     and default metadata is valid, round-trips, and classifies as expected -/
 
-def sampleOps : RegexOps := { compiles := fun _ => true, isMatch := fun p s => p = "digits" && s.all Char.isDigit }
-
-def sampleChart : Chart :=
-  [ ("users".toList, .mk [] (some (.mk "id".toList (some "digits")
-      (.mk [("main".toList, .mk [] none (some ⟨some [("kind".toList, some "wallet")]⟩))] none (some ⟨none⟩)))) none),
-    ("bank".toList, .mk [] none (some ⟨some []⟩)) ]
-
 example : Valid sampleOps sampleChart := by
   simp [Valid, validFixed, Segment.Valid, validVar, validName, isSegChar, sampleChart, sampleOps]
 example : classifyDefaults sampleOps sampleChart ["users".toList, "42".toList, "main".toList]
@@ -80,5 +74,17 @@ example : classifyDefaults sampleOps sampleChart ["users".toList, "42".toList, "
 example : classify sampleOps sampleChart ["users".toList, "x1".toList] = none := by decide
 example : classify sampleOps sampleChart ["users".toList] = none := by decide
 example : (classify sampleOps sampleChart ["users".toList, "7".toList]).isSome = true := by decide
+-- a schema with a template and a query template (opaque params / body, a typed variable with default)
+example : (⟨sampleChart, [("pay".toList, ⟨"", "send …", "machine"⟩)],
+    [("q".toList, ⟨"d", "accounts", some (.obj [("pageSize".toList, .num "10")]),
+      [("v".toList, ⟨.string, some (.str "x")⟩)], some (.obj [])⟩)]⟩ : SchemaData).Valid sampleOps := by
+  refine ⟨by simp [Valid, validFixed, Segment.Valid, validVar, validName, isSegChar, sampleChart, sampleOps], ?_⟩
+  intro kq hkq
+  simp at hkq
+  subst hkq
+  intro kv hkv
+  simp at hkv
+  subst hkv
+  simp [VarDecl.Valid]
 
 end Ledger.C30
